@@ -105,7 +105,14 @@ class WARCRecorder(object):
 
     def _check_journals_and_maybe_raise(self):
         '''Check if any journal files exist and raise an error.'''
-        files = list(glob.glob(self._prefix_filename + '*-wpullinc'))
+        # The prefix is a file name, not a glob pattern.
+        dir_name, base_name = os.path.split(self._prefix_filename)
+        files = [
+            os.path.join(dir_name, name)
+            for name in (os.listdir(dir_name or '.')
+                         if os.path.isdir(dir_name or '.') else ())
+            if name.startswith(base_name) and name.endswith('-wpullinc')
+        ]
 
         if files:
             raise OSError('WARC file {} is incomplete.'.format(files[0]))
